@@ -96,8 +96,9 @@ SITUATIONS = ['state:A:INIT_REQ_SENT', 'state:A:AUTH_REQ_SENT', 'state:A:NEW_CHI
               'cookie_retry', 'init_invalid_ke', 'child_invalid_ke', 'rekey_child_invalid_ke', 'rekey_ike_invalid_ke']
 
 
-def h_retx(sit, k, answer_at, then_new=False):
-    """k ticks; if answer_at is not None the genuine response is delivered just before tick `answer_at`"""
+def h_retx(sit, k, answer_at, then_new=False, peer_request_at=None):
+    """k ticks; if answer_at is not None the genuine response is delivered just before tick `answer_at`; if peer_request_at is not None the peer (which
+    has not seen our request) starts a liveness check of its own just before that tick and gets its answer: our own request stays on its schedule"""
     from symx import core
     eng = core.engine()
     ik = MODS['ikesa'].IkeSa
@@ -114,6 +115,17 @@ def h_retx(sit, k, answer_at, then_new=False):
     after_d4 = 0
     D4 = t0 + 1000 * sum(ik.RETRANSMISSION_DELAY * i for i in range(1, ik.MAX_RETRANSMISSIONS + 1))
     for i, t in enumerate(ticks):
+        if peer_request_at == i and outstanding and me.state != S.DELETED:
+            world.ENV.now = world.T(t)
+            peer_sa, PE = (p.a, p.A) if other == 'A' else (p.b, p.B)
+            if peer_sa.state == S.ESTABLISHED:
+                peer_sa.start_dpd_at = world.T(0)
+                probe = PE.call(peer_sa.check_dead_peer_detection_timer)
+                assert probe is not None
+                ans = E.call(me.process_message, probe)
+                if ans is None:
+                    return {'class': ['retx'], 'violation': 'a request of the peer that arrived while our own request is outstanding was not answered'}
+                PE.call(peer_sa.process_message, ans)
         if answer_at == i and outstanding:
             # the peer's genuine answer arrives now
             world.ENV.now = world.T(t)
@@ -211,8 +223,10 @@ def h_dpd(who):
     return ['dpd', 'quiet']
 
 
-def h_lifetime(scn):
-    """creation instant, jitter and poll instants arbitrary; scn: 'plain' | 'pushed_back' (rekey answered TEMPORARY_FAILURE)"""
+def h_lifetime(scn, subject='initiator'):
+    """creation instant, jitter and poll instants arbitrary; scn: 'plain' | 'pushed_back' (rekey answered TEMPORARY_FAILURE); subject: the IKE_SA whose
+    lifetime is watched - of the initial exchange ('initiator' / 'responder') or created by an IKE_SA rekey ('successor_i' at the endpoint that started
+    the rekey, 'successor_r' at the one that answered it)"""
     from symx import core
     eng = core.engine()
     S = MODS['ikesa'].IkeSa.State
@@ -225,11 +239,34 @@ def h_lifetime(scn):
     p = world.Pair(env_setup=setup)
     p.establish()
     a = p.a
+    if subject == 'responder':
+        # the same clauses for the responder of the initial exchange: swap the roles of the pair
+        p.a, p.b, p.A, p.B = p.b, p.a, p.B, p.A
+        a = p.a
+    elif subject.startswith('successor'):
+        t_c = t_c + 400_000
+        world.ENV.now = world.T(t_c)
+        p.a.rekey_ike_sa_at = world.T(t_c - 1)
+        rk = p.A.call(p.a.check_rekey_ike_sa_timer)
+        dele = p.A.call(p.a.process_message, p.send('B', rk))
+        p.A.call(p.a.process_message, p.send('B', dele))
+        na, nb = p.a.new_ike_sa, p.b.new_ike_sa
+        if na is None or nb is None or na.state != S.ESTABLISHED or nb.state != S.ESTABLISHED:
+            return ['n/a', 'rekey did not complete']
+        if subject == 'successor_i':
+            p.a, p.b = na, nb
+            p.A.obj, p.B.obj = na, nb
+        else:
+            p.a, p.b, p.A, p.B = nb, na, p.B, p.A
+            p.A.obj, p.B.obj = nb, na
+        a = p.a
     lifetime = a.configuration.lifetime
     D_rekey = t_c + lifetime * 1000 + jitter
     D_delete = D_rekey + 30000
     P = eng.prove
-    P(core.sym_and(a.rekey_ike_sa_at.ms == D_rekey, a.delete_ike_sa_at.ms == D_delete), 'deadlines are not creation + lifetime + jitter (+30 s)')
+    if not isinstance(a.rekey_ike_sa_at, world.T) or not isinstance(a.delete_ike_sa_at, world.T):
+        return {'class': ['lifetime'], 'violation': f'{subject}: the lifetime deadlines of the IKE_SA are not armed ({a.rekey_ike_sa_at!r} / {a.delete_ike_sa_at!r})'}
+    P(core.sym_and(a.rekey_ike_sa_at.ms == D_rekey, a.delete_ike_sa_at.ms == D_delete), f'{subject}: deadlines are not creation + lifetime + jitter (+30 s)')
     t1 = eng.sym_int('t1', t_c, 1 << 50)
     world.ENV.now = world.T(t1)
     r = p.A.call(a.check_rekey_ike_sa_timer)
@@ -401,6 +438,10 @@ def build_instances(tier):
         inst.append(Instance(f'peer crash, IKE_SA with {k} CHILD_SAs', h_busy, ('idle', k), native=nat(h_busy), engine_kw={'max_ticks': 10 ** 7},
                              must_reach=[('torn down', lambda o: o[0] == 'busy')]))
     k = 6 if tier == 'quick' else 9
+    for sit in ('state:A:NEW_CHILD_REQ_SENT', 'state:A:DPD_REQ_SENT', 'state:B:REK_CHILD_REQ_SENT', 'state:A:DEL_CHILD_REQ_SENT', 'state:B:DPD_REQ_SENT'):
+        for at in ((1, 3) if tier == 'quick' else (0, 1, 2, 3, 4)):
+            inst.append(Instance(f'retransmit {sit} k=5 while the peer runs a liveness check of its own before tick {at}', h_retx, (sit, 5, None, False, at),
+                                 native=nat(h_retx), must_reach=[('deleted', lambda o: o[-1] == 'deleted')]))
     for sit in SITUATIONS:
         inst.append(Instance(f'retransmit {sit} k={k}', h_retx, (sit, k, None), native=nat(h_retx),
                              must_reach=[('given up', lambda o: len(o) > 2 and o[0] == 'retx' and o[2] == 'deleted'),
@@ -414,6 +455,8 @@ def build_instances(tier):
         inst.append(Instance(f'dpd {who}', h_dpd, (who,), native=nat(h_dpd),
                              must_reach=[('probe', lambda o: o == ['dpd', 'probe']), ('quiet', lambda o: o == ['dpd', 'quiet'])]))
     for scn in ('plain', 'pushed_back'):
+        for subject in ('responder', 'successor_i', 'successor_r'):
+            inst.append(Instance(f'lifetime {scn} of the {subject}', h_lifetime, (scn, subject), native=nat(h_lifetime)))
         inst.append(Instance(f'lifetime {scn}', h_lifetime, (scn,), native=nat(h_lifetime),
                              must_reach=[('rekey or delete', lambda o: len(o) > 1 and o[0] == 'lifetime' and o[1] != 'idle')]))
     return inst
